@@ -935,8 +935,9 @@ func (x *Exec) sliceExpr(e *ast.SliceExpr, st *State) Value {
 	if e.High != nil {
 		hi = x.toIdx(x.exprT(e.High, st, types.Typ[types.Int]), x.info.TypeOf(e.High))
 	}
+	var maxT *Term
 	if e.Max != nil {
-		x.expr(e.Max, st)
+		maxT = x.toIdx(x.exprT(e.Max, st, types.Typ[types.Int]), x.info.TypeOf(e.Max))
 	}
 	// Go permits hi up to cap; the model only tracks len, so require hi <= len
 	// (stricter; a false alarm here is reported as outside the model).
@@ -946,6 +947,14 @@ func (x *Exec) sliceExpr(e *ast.SliceExpr, st *State) Value {
 		st.add(g)
 	}
 	out := Sl{Reg: base.Reg, Comp: base.Comp, Off: x.idxAdd(base.Off, lo), Len: x.idxSub(hi, lo), Nil: False, Str: base.Str}
+	switch {
+	case maxT != nil:
+		// s[lo:hi:max]: the capacity is max - lo (an append beyond hi reallocates
+		// once max == hi)
+		out.Cap = x.idxSub(maxT, lo)
+	case base.Cap != nil:
+		out.Cap = x.idxSub(base.Cap, lo)
+	}
 	if !base.Str {
 		out.Nil = And(base.Nil, Eq(lo, x.ar.idxC(0))) // nil[0:0] stays nil
 		if base.Nil.IsFalse() {
